@@ -139,7 +139,12 @@ fn main() {
             let names = prop.units(tier);
             let name = names.get(unit).cloned().unwrap_or_default();
             let mut c = Ctx::new(prop.id(), tier, unit, name, pin, skip, deadline);
-            prop.run_unit(tier, unit, &mut c);
+            // a panic that escapes Ctx::case is a bug of the check itself (or of its enumeration
+            // code), never a verdict about the subject
+            if let Err(msg) = ctx::guard(|| prop.run_unit(tier, unit, &mut c)) {
+                eprintln!("PANIC-OUTSIDE-CASE: {}", msg);
+                std::process::exit(96);
+            }
             ctx::emit_result(&c.finish());
         }
         "replay-worker" => {
@@ -160,7 +165,10 @@ fn main() {
                 None,
             );
             c.replaying = true;
-            prop.replay(&case, &mut c);
+            if let Err(msg) = ctx::guard(|| prop.replay(&case, &mut c)) {
+                eprintln!("PANIC-OUTSIDE-CASE: {}", msg);
+                std::process::exit(96);
+            }
             ctx::emit_result(&c.finish());
         }
         other => {
